@@ -13,7 +13,7 @@ pub fn def() -> PropertyDef {
         generators,
         extra: no_extra,
         rule: "rename: each E1 program (resolved binders) printed under naming strategies S0 all-distinct, S1 maximal legal shadowing, S2 \
-               rotating six-letter pool, S3 identifier-alphabet stress, each with and without `let` chains printed as begin/that blocks \
+               rotating six-letter pool, S3 identifier-alphabet stress, S5 binders named like a type alias used only in their own annotation, each (S0-S3) with and without `let` chains printed as begin/that blocks \
                (S4: block-contributed names chosen to shadow outer names when legal); legality is computed on the resolved AST. Oracle: \
                identical acceptance and behaviour across strategies and equal to the reference evaluator. hygiene: enumerated grid of \
                importer binder forms (let in/that, def, param, do, fn, fix, match arm, copattern argument, tuple/named/alias pattern, type \
@@ -33,7 +33,7 @@ fn generators(cfg: &Cfg) -> Vec<Generator> {
     ]
 }
 
-fn strategies() -> Vec<Style> {
+pub fn strategies() -> Vec<Style> {
     let mut v = Vec::new();
     for naming in [Naming::Distinct, Naming::Shadow, Naming::Pool, Naming::Weird] {
         for blocks in [false, true] {
@@ -42,6 +42,13 @@ fn strategies() -> Vec<Style> {
             s.block_lets = blocks;
             v.push(s);
         }
+    }
+    // S5: annotated variable binders named like a type alias used only in their own annotation
+    for naming in [Naming::Distinct, Naming::Pool] {
+        let mut s = Style::plain();
+        s.naming = naming;
+        s.pun_binders = true;
+        v.push(s);
     }
     v
 }
@@ -175,6 +182,37 @@ fn probes() -> Vec<Probe> {
                 expect_all: vec!["Unbound", "p.zy"],
             });
         }
+    }
+    // scope extent: an occurrence outside the scope the rules give its would-be binder is unbound, never captured
+    let decls = "def AB : VType = data | +A : Int64 | +B : Int64 end that\n";
+    for (name, body) in [
+        ("fn-own-annotation", "do f <- ret { fn (zq : zq) => ret 0 }; ! exit 0".to_string()),
+        ("fix-own-annotation", "do f <- ret { fix (zq : Thk zq) => ret 0 }; ! exit 0".to_string()),
+        ("let-own-annotation", "let zq : zq = 1 in ! exit 0".to_string()),
+        ("let-own-bindee", "let zq = zq in ! exit 0".to_string()),
+        ("let-tuple-own-bindee", "let (zq, w) = (1, zq) in ! exit 0".to_string()),
+        ("do-own-bindee", "do zq <- ret zq; ! exit 0".to_string()),
+        ("do-pattern-own-bindee", "do (w, zq) <- ret (1, zq); ! exit 0".to_string()),
+        ("forall-own-kind", "let f : Thk (forall (zq : zq) . Ret Int64) = { fn (X : VType) => ret 1 } in ! exit 0".to_string()),
+        ("earlier-component-annotation", "do f <- ret { fn ((a : zq), (zq : Int64)) => ret 0 }; ! exit 0".to_string()),
+        ("match-arm-own-annotation", "match (1, 2) | ((zq : zq), m) => ! exit 0 end".to_string()),
+        ("other-match-arm", format!("begin {decls}match (+A(1) : AB) | +A(zq) => ! exit 0 | +B(w) => ! exit zq end end")),
+        ("after-function", "do f <- ret { fn (zq : Int64) => ret zq }; ! exit zq".to_string()),
+        ("after-thunk-let", "do f <- ret { let zq = 1 in ret zq }; ! exit zq".to_string()),
+        ("after-do-in-bindee", "do a <- (do zq <- ret 1; ret zq); ! exit zq".to_string()),
+        ("after-match", "do a <- (match (1, 2) | (zq, m) => ret zq end); ! exit zq".to_string()),
+        ("that-outside-its-block", "do a <- begin let zq = 1 that ret zq end; ! exit zq".to_string()),
+        ("that-of-thunked-block", "let t = { begin let zq = 1 that ret zq end } in ! exit zq".to_string()),
+        ("that-of-sibling-block", "do a <- begin let zq = 1 that ret zq end; do b <- begin let w = zq that ret w end; ! exit 0".to_string()),
+        ("comatch-argument-other-arm", "begin def K : CType = codata | .f : Int64 -> Ret Int64 | .g : Ret Int64 end that let o : Thk K = { comatch | .f zq => ret zq | .g => ret zq end } that ! exit 0 end".to_string()),
+        ("type-binder-after-forall", "let f : Thk (forall (Zq : VType) . Zq -> Ret Zq) = { fn (X : VType) (x : X) => ret x } in let g : Thk (Zq -> Ret Int64) = { fn (y : Int64) => ret y } in ! exit 0".to_string()),
+        ("exists-witness-after-opening-scope", "do a <- (let (Zq, x) = ((Int64, 5) : exists (T : VType) . T) in ret 0); let g : Thk (Zq -> Ret Int64) = { fn (y : Int64) => ret y } in ! exit 0".to_string()),
+    ] {
+        v.push(Probe {
+            name: format!("scope-extent/{name}"),
+            files: vec![("root.zy".into(), format!("{}{}\n", MiniPrelude::core().text(), body)), ("p.zy".into(), "0".into())],
+            expect_all: vec!["Unbound", "root.zy"],
+        });
     }
     // a builtin name of the importer's prelude is not visible in a provider either
     v.push(Probe {
